@@ -123,7 +123,7 @@ impl RefResult {
 pub fn solve_program(prog: &Program, limits: Limits) -> RefResult {
     let mut index: HashMap<String, Vec<usize>> = HashMap::new();
     for (i, c) in prog.clauses.iter().enumerate() { index.entry(c.key()).or_default().push(i); }
-    let mut sv = Solver { prog, index, s: Subst::new(), limits, next_frame: 1, events: vec![], status: Status::Finished,
+    let mut sv = Solver { prog, index, s: { let mut s0 = Subst::new(); s0.func_eval = Some(eval_function); s0 }, limits, next_frame: 1, events: vec![], status: Status::Finished,
                           stats: RefStats::default(), open_calls: 0 };
     let mut env = HashMap::new();
     let qargs: Vec<RT> = prog.qargs.iter().map(|t| instantiate(t, &mut env, &mut sv.s)).collect();
@@ -260,7 +260,7 @@ impl<'p> Solver<'p> {
                     Ok(b) => b,
                     Err(why) => { self.status = Status::OutOfDomain(why); return Ctl::Halt; }
                 };
-                if self.s.occurs_hit { self.status = Status::Occurs; return Ctl::Halt; }
+                if self.unify_halts() { return Ctl::Halt; }
                 let r = if ok { k(self) } else { self.stats.unify_fail += 1; Ctl::Continue };
                 self.s.undo(mark);
                 r
@@ -276,7 +276,7 @@ impl<'p> Solver<'p> {
                 self.stats.builtin_calls += 1;
                 let mark = self.s.mark();
                 let res = self.builtin(name, args);
-                if self.s.occurs_hit { self.status = Status::Occurs; return Ctl::Halt; }
+                if self.unify_halts() { return Ctl::Halt; }
                 let r = match res {
                     Ok(true) => k(self),
                     Ok(false) => Ctl::Continue,
@@ -303,7 +303,7 @@ impl<'p> Solver<'p> {
                     let mut ok = true;
                     for (h, a) in hargs.iter().zip(args.iter()) {
                         if !self.s.unify(h, a) { ok = false; break; }
-                        if self.s.occurs_hit { self.status = Status::Occurs; return Ctl::Halt; }
+                        if self.unify_halts() { return Ctl::Halt; }
                     }
                     if !ok { self.s.undo(mark); continue; }
                     if clause.args.iter().any(|t| matches!(t, Term::List(..))) { self.stats.list_head_match += 1; }
@@ -345,6 +345,13 @@ impl<'p> Solver<'p> {
     }
 
     // --------------------------------------------------------------- built-ins
+
+    /// A unification ran into a cycle or evaluated a function outside its domain: the case is out of the model.
+    fn unify_halts(&mut self) -> bool {
+        if self.s.occurs_hit { self.status = Status::Occurs; return true; }
+        if let Some(why) = self.s.func_err.take() { self.status = Status::OutOfDomain(why); return true; }
+        false
+    }
 
     fn unify_goal(&mut self, a: &RT, b: &RT) -> Result<bool, String> {
         let x = self.eval_if_func(a)?;
@@ -425,6 +432,7 @@ impl<'p> Solver<'p> {
                     let mark = self.s.mark();
                     let m = self.s.unify(&args[0], &e);
                     if self.s.occurs_hit { return Ok(false); }
+                    if let Some(why) = self.s.func_err.take() { return Err(why); }
                     self.s.undo(mark);
                     if m == want { kept.push(e); }
                 }
